@@ -1,3 +1,4 @@
 //! Shared helpers of the wfverif conformance harness.
 #![allow(clippy::all)]
+pub mod toy;
 pub mod util;
